@@ -138,6 +138,18 @@ struct C05 {
             std::string joined = Join(t, "    ");
             std::string doo = D::Do(o, e);
             ++res.transitions, ++res.traces_validated;
+            {
+                // the same under an addressing configuration: the joined form prints what the token list prints for the same arguments
+                D::ArArpSettings set{};
+                set.ar = {0x1234, 0xFEDC};
+                set.arp = {0x0421, 0x8C63, 0x5A5A, 0xFFFF};
+                std::string j2 = Join(D::GetTokenList(o, e, set), "    "), d2 = D::Do(o, e, set);
+                ++res.transitions, ++res.traces_validated;
+                if (j2 != d2) {
+                    Fail(Fmt("joined-text-annotated:%s", di.name), Fmt("opcode %04X %04X with an ar/arp configuration: Do() returns '%s', the token list joined by four spaces is '%s'", o, e, d2.c_str(), j2.c_str()), rp);
+                    return;
+                }
+            }
             if (joined != doo) {
                 Fail(Fmt("joined-text:%s", di.name), Fmt("opcode %04X %04X: Do() returns '%s', the token list joined by four spaces is '%s'", o, e, doo.c_str(), joined.c_str()), rp);
                 return;
